@@ -866,6 +866,13 @@ func (g *gen) setOp(front bool) string {
 			v = 7 // not a string
 		case 2:
 			v = ""
+		case 3:
+			if r.Intn(4) == 0 {
+				g.h.Count("set.chatid.wrong-type-service")
+				v = "gate-2" // a known service of another type: the forwarded message is dropped there
+			} else {
+				v = "chat-2"
+			}
 		default:
 			v = []string{"chat-1", "chat-2"}[r.Intn(2)]
 		}
